@@ -93,6 +93,9 @@ type c07H struct {
 	stuck   bool
 	// forceHost, when set, is the host of the next recorded queries.
 	forceHost string
+	// lockHeld: the harness itself holds fileFlushLock, so the flush an Add
+	// spawns cannot run yet (the Add is recorded as OAddAsync).
+	lockHeld bool
 	desc    []string
 }
 
@@ -252,7 +255,9 @@ func (h *c07H) add() {
 	}
 	// hold the flush lock so that the asynchronous flush cannot empty the
 	// buffer before the recorded entry has been read back
-	l.fileFlushLock.Lock()
+	if !h.lockHeld {
+		l.fileFlushLock.Lock()
+	}
 	l.Add(p)
 	var ent *logEntry
 	var pending bool
@@ -263,7 +268,6 @@ func (h *c07H) add() {
 		pending = l.flushPending
 	}()
 	if ent == nil {
-		l.fileFlushLock.Unlock()
 		h.t.Fatal("entry not in the buffer after Add")
 	}
 	rec := &c07Rec{id: len(h.recs) + 1, ns: ent.Time.UnixNano(), host: ent.QHost, ip: ent.IP.String(), cid: ent.ClientID,
@@ -278,8 +282,10 @@ func (h *c07H) add() {
 	var m map[string]any
 	_ = json.Unmarshal(jb, &m)
 	rec.want = c07Canon(m)
-	l.fileFlushLock.Unlock()
-	if pending {
+	if !h.lockHeld {
+		l.fileFlushLock.Unlock()
+	}
+	if pending && !h.lockHeld {
 		h.cls["add-triggers-flush"] = true
 		// wait (bounded) until the asynchronous flush has finished
 		deadline := time.Now().Add(5 * time.Second)
@@ -307,7 +313,11 @@ func (h *c07H) add() {
 	h.lastNS = rec.ns
 	h.recs = append(h.recs, rec)
 	h.byNS[rec.ns] = rec
-	h.steps = append(h.steps, vfApp("C07.HOp", vfApp("OAdd", vfApp("C07.E", vfN(uint64(rec.id)), vfZ(rec.ns), vfZ(int64(rec.jlen)),
+	opName := "OAdd"
+	if h.lockHeld {
+		opName = "OAddAsync"
+	}
+	h.steps = append(h.steps, vfApp("C07.HOp", vfApp(opName, vfApp("C07.E", vfN(uint64(rec.id)), vfZ(rec.ns), vfZ(int64(rec.jlen)),
 		vfBytes(rec.host), vfBytes(rec.ip), vfBytes(rec.cid), vfZ(int64(rec.reason)), vfBool(rec.filtered)))))
 	// the monitor's own book-keeping of where entries live
 	memCap := int(l.conf.MemSize)
@@ -329,7 +339,7 @@ func (h *c07H) add() {
 			}
 		}
 	}
-	if pending {
+	if pending && !h.lockHeld {
 		h.moveMemToFile()
 	}
 }
@@ -1040,6 +1050,74 @@ func c07ScanPrelude(t *testing.T, out *vfOut, r *vfRand) {
 	out.Emit(c)
 }
 
+// c07ClearRacePrelude: the Add that fills the buffer sets flushPending and
+// spawns the flush; POST /control/querylog_clear gets fileFlushLock before
+// that goroutine (the harness holds the lock while clear queues up first, then
+// the Add, then releases).  The late goroutine finds the buffer empty.  After
+// that mem_size+1 more queries are recorded: all must be returned.  In the
+// unchanged tree both orders of the two lock waiters end in the same state, so
+// the case does not depend on the scheduler.
+func c07ClearRacePrelude(t *testing.T, out *vfOut, r *vfRand, mem uint) {
+	dir, err := os.MkdirTemp(t.TempDir(), "c")
+	if err != nil {
+		t.Fatal(err)
+	}
+	defer os.RemoveAll(dir)
+	h := &c07H{t: t, ctx: context.Background(), r: r, dir: dir, byNS: map[int64]*c07Rec{}, cls: map[string]bool{}}
+	h.newLog(mem, true, true)
+	c0 := h.coqConfig()
+	for i := uint(0); i+1 < mem; i++ {
+		h.add()
+	}
+	l := h.l
+	base := runtime.NumGoroutine()
+	l.fileFlushLock.Lock()
+	cleared := make(chan struct{})
+	go func() {
+		rq := httptest.NewRequest("POST", "/control/querylog_clear", nil)
+		l.handleQueryLogClear(httptest.NewRecorder(), rq)
+		close(cleared)
+	}()
+	// let clear reach its Lock call before the flush goroutine exists
+	for i := 0; i < 2000; i++ {
+		runtime.Gosched()
+	}
+	time.Sleep(2 * time.Millisecond)
+	h.lockHeld = true
+	h.add() // fills the buffer: flushPending is set, the flush goroutine queues behind clear
+	h.lockHeld = false
+	l.fileFlushLock.Unlock()
+	<-cleared
+	deadline := time.Now().Add(5 * time.Second)
+	for runtime.NumGoroutine() > base && time.Now().Before(deadline) {
+		l.fileFlushLock.Lock()
+		l.fileFlushLock.Unlock()
+		runtime.Gosched()
+	}
+	for _, x := range h.recs {
+		x.where = -1
+	}
+	h.steps = append(h.steps, "(C07.HOp OClear)", "(C07.HOp OFlush)")
+	h.cls["op-clear"] = true
+	h.cls["clear-overtakes-spawned-flush"] = true
+	h.state()
+	for i := uint(0); i < mem+1 && !h.stuck; i++ {
+		h.add()
+	}
+	h.state()
+	h.battery(true)
+	c := vfCase{
+		Coq: vfApp("C07.CHist", vfZ(maxEntrySize), vfZ(bufferSize), c0, vfList("C07.hstep", h.steps)),
+		Nontrivial: true, MonitorOK: len(h.msgs) == 0, MonitorMsg: strings.Join(h.msgs, "; "), FindingKey: h.key,
+		Desc: map[string]any{"kind": "clear-overtakes-spawned-flush", "mem_size": mem, "entries": len(h.recs), "searches": h.nsearch},
+	}
+	for k := range h.cls {
+		c.Classes = append(c.Classes, k)
+	}
+	sort.Strings(c.Classes)
+	out.Emit(c)
+}
+
 func TestVerifC07(t *testing.T) {
 	out := vfOpen(t, "C07")
 	defer out.Close()
@@ -1052,6 +1130,11 @@ func TestVerifC07(t *testing.T) {
 	c07History(t, out, pr, 25, 4, false, "prelude-nofile")
 	c07History(t, out, pr, 60, 5, true, "prelude-long")
 	c07ScanPrelude(t, out, pr)
+	for _, mem := range []uint{1, 2, 3, 4} {
+		if !c07Stuck {
+			c07ClearRacePrelude(t, out, pr, mem)
+		}
+	}
 	// ---- random histories
 	rnd := vfNewRand(out.Seed)
 	n := out.Scale(120, 1200)
